@@ -535,6 +535,78 @@ func (e *Env) OrderOracle() []Finding {
 	return out
 }
 
+// HeldOpenOracle checks the consequence C11 states for its ordering rule, in a form
+// that is also meaningful when a resolution overlaps a Close: no disposable X is closed
+// while a still-open disposable Y that received X as a constructor argument exists.
+// Y "exists" once the container has established it: the operation (resolution, scope
+// creation, Build) during which its constructor ran completed successfully, or a completed
+// operation handed it (or a sibling output of the same constructor call) out successfully,
+// before X was closed. An instance whose constructor has returned but whose resolution was
+// then refused because a Close overlapped is not ordered (the container disposes such late
+// arrivals itself; between constructor return and registration the container cannot know it). A singleton holding an instance owned by the root scope is exempt:
+// the property itself orders every scope before any singleton.
+func (e *Env) HeldOpenOracle() []Finding {
+	var out []Finding
+	ho := e.handouts()
+	for _, c := range e.W.Calls {
+		if c.Outcome != "ok" {
+			continue
+		}
+		for _, y := range c.Outs {
+			if !y.Disp || y.Given {
+				continue
+			}
+			oy := e.ownerOf(y)
+			// when was y established? (the operation that constructed it completed successfully,
+			// or a completed operation handed it / a sibling output out)
+			est := -1
+			if e.ScopeOfCall(c) == "#build" {
+				if e.BuildErr == nil && e.BuildPanic == nil {
+					est = c.End
+				}
+			} else {
+				for _, r := range e.Results {
+					if r.Thread == c.Thread && !r.Skipped && r.Start <= c.Start && c.End <= r.End && r.Err == nil && r.Panic == nil {
+						est = r.End
+					}
+				}
+			}
+			for _, sib := range c.Outs {
+				for _, h := range ho[sib] {
+					if h.Res != nil && (est < 0 || h.Res.End < est) {
+						est = h.Res.End
+					}
+				}
+			}
+			if est < 0 {
+				continue
+			}
+			yClosed := 1 << 60
+			if len(y.Closes) > 0 {
+				yClosed = y.Closes[0].Stamp
+			}
+			for _, a := range c.Args {
+				argInsts(a, func(x *kit.Inst) {
+					if !x.Disp || x.Given || len(x.Closes) == 0 {
+						return
+					}
+					ox := e.ownerOf(x)
+					if oy == "#prov" && ox != "#prov" {
+						return
+					}
+					t := x.Closes[0].Stamp
+					if est < t && t < yClosed {
+						out = append(out, Finding{feat("clause", "dependency-closed-while-dependent-open", "same-owner", fmt.Sprint(ox == oy)),
+							fmt.Sprintf("%s (owner %s) was closed at stamp %d while %s (owner %s), which received it and was established at stamp %d, was still open (closed at %d)",
+								x.Label(), ox, t, y.Label(), oy, est, yClosed)})
+					}
+				})
+			}
+		}
+	}
+	return out
+}
+
 // isDescendant reports whether scope a is a strict descendant of scope b
 // (b == "#root" only has descendants through provider.Close, which the
 // property orders under "every scope before any singleton", not here).
